@@ -352,6 +352,16 @@ def _setup(ctx, col):
             f"_save_solver_config() is not guarded by exactly `self.has_full_config` (path conditions: {[ast.unparse(c) for c in conds]})"
     col.add("R12.5", "CheckpointMixin._setup_checkpointing", file, (sites[0][0].lineno if sites else fn.lineno), ok5, why5,
             text="_save_solver_config under has_full_config")
+    # has_full_config itself: "reconstructible" means the PROBLEM INSTANCE carries a configuration with a _target_ and so does the solver
+    ho, hfn = ctx.ct.require(cm, "has_full_config")
+    bases = _target_bases(hfn)
+    need = {"self.problem.config", "self.config"}
+    okh = need <= bases
+    col.add("R12.5", "CheckpointMixin.has_full_config", ho.module.relpath, hfn.lineno, okh,
+            "full configuration == the problem instance's config and the solver's config both carry a _target_" if okh else
+            f"has_full_config tests `_target_` of {sorted(bases)}; it must test it on {sorted(need)} - a problem instance without a configuration of its own "
+            "is not reconstructible whatever the solver configuration's `problem` field holds, so config.yaml would be written for a problem it does not describe",
+            text="has_full_config predicate")
     so, sfn = ctx.ct.require(cm, "_save_solver_config")
     wr = [c for c in calls_in(deref(sfn, sfn)) if ast.unparse(c.func) == "OmegaConf.save"]
     okw = len(wr) == 1 and len(wr[0].args) == 2 and ast.unparse(wr[0].args[0]) == "self.config" \
@@ -647,3 +657,46 @@ def _policy_options(ctx, col):
     col.add("R12.10", "CheckpointMixin", cm.module.relpath, cm.node.lineno, True,
             f"{n_opts} options construction(s) and every call on a checkpoint manager examined; no step-removing manager method is called",
             text="manager methods")
+
+
+def _target_bases(fn) -> set[str]:
+    """dotted texts of the objects whose `_target_` the function reads (`x._target_`, `getattr(x, "_target_", ..)`, `hasattr(x, "_target_")`), with locals
+    (also walrus targets) bound once to an attribute chain / getattr resolved"""
+    alias = {}
+    for n in ast.walk(fn):
+        if isinstance(n, ast.Assign) and len(n.targets) == 1 and isinstance(n.targets[0], ast.Name):
+            alias.setdefault(n.targets[0].id, []).append(n.value)
+        if isinstance(n, ast.NamedExpr) and isinstance(n.target, ast.Name):
+            alias.setdefault(n.target.id, []).append(n.value)
+
+    def dotted(e, depth=0):
+        if depth > 8:
+            return None
+        if isinstance(e, ast.NamedExpr):
+            return dotted(e.value, depth + 1)
+        if isinstance(e, ast.Name):
+            if e.id == "self":
+                return "self"
+            vs = alias.get(e.id)
+            return dotted(vs[0], depth + 1) if vs and len(vs) == 1 else None
+        if isinstance(e, ast.Attribute):
+            b = dotted(e.value, depth + 1)
+            return None if b is None else f"{b}.{e.attr}"
+        if isinstance(e, ast.Call) and isinstance(e.func, ast.Name) and e.func.id == "getattr" and len(e.args) >= 2 \
+                and isinstance(e.args[1], ast.Constant) and isinstance(e.args[1].value, str):
+            b = dotted(e.args[0], depth + 1)
+            return None if b is None else f"{b}.{e.args[1].value}"
+        return None
+
+    out = set()
+    for n in ast.walk(fn):
+        if isinstance(n, ast.Attribute) and n.attr == "_target_":
+            b = dotted(n.value)
+            if b:
+                out.add(b)
+        if isinstance(n, ast.Call) and isinstance(n.func, ast.Name) and n.func.id in ("getattr", "hasattr") and len(n.args) >= 2 \
+                and isinstance(n.args[1], ast.Constant) and n.args[1].value == "_target_":
+            b = dotted(n.args[0])
+            if b:
+                out.add(b)
+    return out
